@@ -27,6 +27,7 @@ const (
 	ccM = 2 // int, order-sensitive merge (v*3+d)
 	ccS = 3 // string, order-sensitive same-length merge
 	ccT = 4 // uint64 tag
+	ccX = 5 // string, commutative max merge that returns its argument as is
 )
 
 func concSchema(capacity int) *Schema {
@@ -36,6 +37,7 @@ func concSchema(capacity int) *Schema {
 		{Name: "m", Kind: KInt, Merge: MMulAdd},
 		{Name: "s", Kind: KString, Merge: MMix},
 		{Name: "t", Kind: KUint64},
+		{Name: "x", Kind: KString, Merge: MMax},
 	}}
 }
 
@@ -151,12 +153,15 @@ type concGenCfg struct {
 }
 
 func genConcStore(t *rapid.T, cfg concGenCfg, task, seq int) Store {
-	col := rapid.SampledFrom([]int{ccA, ccA, ccM, ccS}).Draw(t, "col")
+	col := rapid.SampledFrom([]int{ccA, ccA, ccM, ccS, ccX}).Draw(t, "col")
 	st := Store{Col: col, Merge: true}
 	if cfg.Puts && !cfg.OnlyMerge && rapid.IntRange(0, 3).Draw(t, "put") == 0 {
 		st.Merge = false
 	}
 	switch col {
+	case ccX:
+		st.Merge = true
+		st.Val = Value{S: fmt.Sprintf("%c%02d", 'a'+seq%5, seq%100)}
 	case ccS:
 		st.Val = Value{S: fmt.Sprintf("%c%d", 'a'+task, seq%10)}
 	default:
@@ -434,7 +439,7 @@ func decodeCommitOps(rc recCommit) []decodedOp {
 					if len(r.Bytes()) == 8 {
 						op.Int = int64(r.Uint64())
 					}
-				case "s":
+				case "s", "x":
 					op.Str = string(r.Bytes())
 				}
 				out = append(out, op)
